@@ -1,4 +1,5 @@
 import IrefVerif.Lemmas.Nsegs
+import IrefVerif.Lemmas.NormList
 
 /-!
 # C09 — dot-segment normalisation (RFC 3986 §5.2.4, Errata 4547)
@@ -7,8 +8,15 @@ The model of `NormalizedSegmentsImpl::new` is `Model.Path.normalized_segments`: 
 `normalizedStep` over the segment iterator.  Proved here: that fold is the specification walk
 (`.` dropped; `..` pops, or is kept on an empty/`..`-topped stack of a relative path, or is
 dropped at the root of an absolute one); the walk is idempotent; its result contains no `.`
-and, for an absolute path, no `..`.  The rendering claims (normalized copy, in-place rewrite,
-shield) are checked on the implementation by the `paths`/`pathmut` oracles.
+and, for an absolute path, no `..`.
+Rendering, on the models of `PathMutImpl::normalize` and `PathImpl::normalized`
+(`Lemmas/NormList.lean`): in-place normalisation rewrites the path — and nothing else in the
+buffer (`C10.path_handle_step`) — to a text that realises the normalised sequence, behind a `.`
+shield exactly when the first normalised segment could be misread, keeps the path absolute or
+relative (`inplace_realises`) and is idempotent (`inplace_idempotent`); the normalized copy is
+RFC 3986 §5.2.4 with Errata 4547, trailing `/` of a final dot segment included, whenever no shield
+is needed (`copy_is_rfc`).  The shielded copies and idempotence of the copy are checked on the
+implementation by the `paths`/`pathmut` oracles.
 -/
 
 namespace IrefVerif.Props.C09
@@ -40,5 +48,40 @@ theorem nsegs_abs_no_dotdot (ss : List Text) : segDotDot ∉ nsegsOf true ss := 
 example : nsegsOf false [[0x61], segDotDot, segDotDot, [0x62]] = [segDotDot, [0x62]] := by decide
 example : nsegsOf true [[0x61], segDotDot, segDotDot, [0x62]] = [[0x62]] := by decide
 example : nsegsOf false [[0x61], segDot, [0x62], segDotDot, []] = [[0x61], []] := by decide
+
+/-! ## rendering: the models of `normalize` (in place) and `normalized` (copy) -/
+
+/-- **in-place normalisation writes the normalised sequence** (literally, or behind the one `.`
+shield it needs) and keeps the path absolute or relative; `C10.path_handle_step` shows that the
+model of `normalize` writes exactly `normView` and touches nothing else -/
+theorem inplace_realises (fa atStart : Bool) (p : Text) (hp : PathText p) :
+    realises (normView fa atStart p) (nsegs p) = true ∧ isAbs (normView fa atStart p) = isAbs p :=
+  normView_realises fa atStart p hp
+
+/-- the model of `normalize` on a handle: the window becomes `normView`, everything else stays -/
+theorem inplace_model (h : PathMut) (pre v post : Text) (inv : PInv h pre v post) :
+    ∃ h', h.normalize = some h' ∧ PInv h' pre (normView h.follows_authority (pre.length == 0) v) post :=
+  let ⟨h', e, i, _, _⟩ := normalize_view h pre v post inv
+  ⟨h', e, i⟩
+
+/-- **idempotent**: normalising a normalised path changes nothing -/
+theorem inplace_idempotent (fa atStart : Bool) (p : Text) (hp : PathText p) :
+    normView fa atStart (normView fa atStart p) = normView fa atStart p :=
+  normView_idem fa atStart p hp
+
+/-- the model of the normalized copy -/
+theorem copy_model (p : Text) (hp : PathText p) : Path.normalized p = some (nrmCopy p) :=
+  normalized_view p hp
+
+/-- **the normalized copy is the RFC 3986 §5.2.4 rendering** (Errata 4547 for relative paths; the
+trailing `/` of a final dot segment included), whenever the result needs no shield -/
+theorem copy_is_rfc (p : Text) (hp : PathText p) (hns : needsShield true true p = false) :
+    Path.normalized p = some (removeDots p) := by
+  rw [normalized_view p hp, nrmCopy_no_shield p hp hns]
+
+example : Path.normalized [0x2F,0x61,0x2F,0x2E,0x2F,0x62,0x2F,0x2E,0x2E,0x2F,0x2E] = some [0x2F,0x61,0x2F] := by decide
+example : needsShield true true [0x2F,0x61,0x2F,0x2E,0x2F,0x62,0x2F,0x2E,0x2E,0x2F,0x2E] = false := by decide
+/-- a copy that needs its shield: `a/..//b` is `.//b`, not `//b` -/
+example : Path.normalized [0x61,0x2F,0x2E,0x2E,0x2F,0x2F,0x62] = some [0x2E,0x2F,0x2F,0x62] := by decide
 
 end IrefVerif.Props.C09
